@@ -20,7 +20,7 @@ PROPS = {
     'C02': dict(facts=['Topo', 'Calls', 'Translated'], more=['Oracles'], keys=['C02'], tkeys=['T:pre', 'T:phase1', 'T:phase5', 'T:post', 'T:output', 'T:break', 'T:phase4-noop', 'T:pipeline'], suites=[('e2e', 2500, 60000), ('c04', 500, 10000), ('e2e-big', 8, 100), ('e2e-dec', 400, 8000)], partial=[]),
     'C03': dict(facts=['Calls', 'Numbers', 'Topo', 'Translated'], more=['C01Chain'], keys=['C03'], tkeys=['T:phase2-longestpath', 'T:layers', 'T:assignY', 'T:phase4-valign', 'T:phase4-packright', 'T:post', 'T:output', 'T:break', 'T:phase4-sinkcoloring', 'K:layersWF', 'T:phase2-ns', 'T:phase4-ns', 'T:phase4-bk'], suites=[('c03', 2500, 60000), ('e2e', 500, 10000), ('e2e-big', 8, 100)], partial=[]),
     'C04': dict(facts=['Calls', 'Numbers', 'Translated'], more=['Oracles', 'C01Chain'], keys=['C04', 'C09side'], tkeys=['T:phase4-valign', 'T:phase4-packright', 'T:output', 'T:phase4-sinkcoloring', 'K:layersWF', 'K:sc-blockwidth', 'K:layered', 'T:phase4-ns'], suites=[('c04', 2500, 60000), ('e2e', 500, 10000), ('e2e-big', 8, 100)], partial=[]),
-    'C05': dict(facts=['Calls', 'Numbers', 'Translated'], keys=['C05'], tkeys=['T:phase5', 'T:post', 'T:output', 'T:break'], suites=[('c05', 2500, 60000), ('e2e-splines', 60, 3000), ('e2e', 500, 10000), ('e2e-big', 8, 100), ('e2e-huge', 8, 100), ('e2e-wide', 2, 12)], partial=[]),
+    'C05': dict(facts=['Calls', 'Numbers', 'Translated'], keys=['C05'], tkeys=['T:phase5', 'T:post', 'T:output', 'T:break'], suites=[('c05', 2500, 60000), ('e2e-splines', 40, 3000), ('e2e', 500, 10000), ('e2e-big', 8, 100), ('e2e-huge', 8, 100), ('e2e-wide', 2, 12)], partial=[]),
     'C06': dict(facts=['Calls', 'Numbers', 'Translated'], keys=['C06'], tkeys=['T:phase5', 'T:output', 'T:break'], suites=[('c06', 2500, 60000), ('e2e', 500, 10000), ('e2e-big', 8, 100)], partial=[]),
     'C07': dict(facts=['Maps', 'Shared', 'Calls'], keys=['C07rep', 'C07input', 'C07fresh'], tkeys=['T:phase2-ns', 'T:phase4-sinkcoloring'], suites=[('e2e', 2500, 60000), ('e2e-big', 8, 100), ('e2e-dec', 400, 8000)],
                 fresh_process=True, partial=[]),
